@@ -5,6 +5,7 @@ import (
 	"github.com/tuneinsight/lattigo/v6/utils/bignum"
 	"math"
 	"math/big"
+	"sort"
 	"verif/uni"
 
 	bgvlt "github.com/tuneinsight/lattigo/v6/circuits/bgv/lintrans"
@@ -61,12 +62,31 @@ func specialScenarios(tier string) []engine.Scenario {
 			engine.Scenario{Name: "encode-mismatch/bgv", Bound: -1, Fn: func(c *engine.Chooser) { encodeMismatchLeaf(c, getBGVAdapter(c, bs), "encode-mismatch/bgv") }},
 			engine.Scenario{Name: "encode-mismatch/ckks", Bound: -1, Fn: func(c *engine.Chooser) { encodeMismatchLeaf(c, getCKKSAdapter(c, cs, 3), "encode-mismatch/ckks") }},
 			engine.Scenario{Name: "refusals/bgv", Bound: -1, Fn: func(c *engine.Chooser) { refusalLeaf(c, getBGVAdapter(c, bs), "refusals/bgv") }},
+			engine.Scenario{Name: "many-sequence/bgv-n8", Bound: -1, Fn: func(c *engine.Chooser) {
+				manySequenceLeaf(c, getBGVAdapter(c, bs), "many-sequence/bgv-n8", manyCount(tier))
+			}},
+			engine.Scenario{Name: "many-sequence/ckks-n8", Bound: -1, Fn: func(c *engine.Chooser) {
+				manySequenceLeaf(c, getCKKSAdapter(c, cs, 3), "many-sequence/ckks-n8", manyCount(tier))
+			}},
+			engine.Scenario{Name: "many-sequence/ckks-n16", Bound: -1, Fn: func(c *engine.Chooser) {
+				manySequenceLeaf(c, getCKKSAdapter(c, circ.CKKSSpec{LogN: 5, NQ: 5, Q0Bits: 45, QBits: 30, NP: 2, PBits: 46, LogScale: 30}, 4), "many-sequence/ckks-n16", 3)
+			}},
+			engine.Scenario{Name: "many-sequence/bgv-n16", Bound: -1, Fn: func(c *engine.Chooser) {
+				manySequenceLeaf(c, getBGVAdapter(c, circ.BGVSpec{LogN: 5, NQ: 5, QBits: 45, NP: 2, PBits: 50, T: 65537}), "many-sequence/bgv-n16", 3)
+			}},
 			engine.Scenario{Name: "high-precision/ckks-scale90", Bound: -1, Fn: highPrecisionLeaf},
 			engine.Scenario{Name: "refusals/ckks", Bound: -1, Fn: func(c *engine.Chooser) { refusalLeaf(c, getCKKSAdapter(c, cs, 3), "refusals/ckks") }},
 		)
 	}
 	scs = append(scs, permScenarios(tier)...)
 	return scs
+}
+
+func manyCount(tier string) int {
+	if tier == "thorough" {
+		return 4
+	}
+	return 3
 }
 
 // smallTargets: the BGV 2x8 and the CKKS 8-slot (full packing) targets, by name.
@@ -544,4 +564,130 @@ func highPrecisionLeaf(c *engine.Chooser) {
 	c.Note("max error 2^%.1f, eps 2^%.1f", math.Log2(worst+1e-300), math.Log2(eps))
 	c.Outcome("high-precision", desc)
 	c.Count(1)
+}
+
+// ---------------------------------------------------------------------------------------------
+// EvaluateMany with 3 (thorough: 4) transformations whose baby-step tables are equal / disjoint / nested / overlapping, in every
+// order and with repeats (A,B,A): the table of pre-rotated ciphertexts is shared by the transformations of one call. Every output
+// is judged against its own matrix-vector product (= the transformation evaluated alone).
+
+func manyPool(n int) []diagSet {
+	// With q = n/4 and ratios 0 / 1 these sets are split with N1 = 4 at n = 16, and their baby-step tables are
+	// A {0,1}, B {0,2}, C {1,2}, D {0,3}, E {1,3}, F {0,1,2,3}: equal, disjoint (apart from 0), nested and overlapping pairs.
+	q := n / 4
+	return uniqueModN(n, []diagSet{
+		{"A", []int{1, 1 + q, 1 + 2*q, 1 + 3*q, 0, q}},
+		{"B", []int{2, 2 + q, 2 + 2*q, 2 + 3*q, 0, 2 * q}},
+		{"C", []int{1, 2, 1 + q, 2 + q, 1 + 2*q, 2 + 2*q}},
+		{"D", []int{0, q, 2 * q, 3 * q, 3, 3 + q}},
+		{"E", []int{3, 1, 3 + q, 1 + q, 3 + 2*q, 1 + 2*q}},
+		{"F", []int{1, 2, 3, q, 2 * q, q + 1}},
+	})
+}
+
+// uniqueModN reduces the indices modulo n and drops repetitions (small n).
+func uniqueModN(n int, sets []diagSet) []diagSet {
+	for i := range sets {
+		seen := map[int]bool{}
+		var idx []int
+		for _, k := range sets[i].idx {
+			if r := k % n; !seen[r] {
+				seen[r] = true
+				idx = append(idx, r)
+			}
+		}
+		sets[i].idx = idx
+	}
+	return sets
+}
+
+func manySequenceLeaf[T any](c *engine.Chooser, a *adapter[T], scName string, count int) {
+	pool := manyPool(a.n)
+	var seq []diagSet
+	name := ""
+	for m := 0; m < count; m++ {
+		s := pool[c.ChooseFree(len(pool), fmt.Sprintf("matrix%d", m))]
+		seq = append(seq, s)
+		name += s.name
+	}
+	ratio := []int{1, 0, 2, -1}[c.ChooseFree(4, "ratio")]
+	mix := c.ChooseFree(2, "second-naive") == 1 // the second transformation without BSGS
+	useNew := c.ChooseFree(2, "new") == 1
+	desc := fmt.Sprintf("%s EvaluateMany %s ratio=%d second-naive=%v new=%v", a.scheme, name, ratio, mix, useNew)
+	c.Note("%s", desc)
+	c.Cover("many-sequence", fmt.Sprintf("%d", count))
+	if count >= 3 && seq[0].name == seq[2].name && seq[0].name != seq[1].name {
+		c.Cover("many-sequence", "A,B,A")
+	}
+	sig := "C12/" + a.scheme + "/EvaluateMany-sequence"
+	v := a.input()
+	ct := a.ciphertext(c, "input", v, a.maxLevel, false)
+	var lts []lintrans.LinearTransformation
+	var models []map[int][]T
+	galSet := map[uint64]bool{}
+	for m, s := range seq {
+		d := map[int][]T{}
+		for _, k := range s.idx {
+			d[k] = a.diag(m%3, ((k%a.n)+a.n)%a.n)
+		}
+		r := ratio
+		if mix && m == 1 {
+			r = -1
+		}
+		lt, gals, err := a.newLT(c, lintrans.Parameters{DiagonalsIndexList: append([]int(nil), s.idx...), LevelQ: a.maxLevel, LevelP: a.maxLvlP,
+			Scale: a.ltScale(false), LogDimensions: ct.LogDimensions, LogBabyStepGiantStepRatio: r}, d)
+		if err != nil {
+			c.Fail(sig+"/Encode/error", "%s: %v", desc, err)
+			return
+		}
+		for _, g := range gals {
+			galSet[g] = true
+		}
+		lts = append(lts, lt)
+		models = append(models, d)
+	}
+	var gals []uint64
+	for g := range galSet {
+		gals = append(gals, g)
+	}
+	sort.Slice(gals, func(i, j int) bool { return gals[i] < gals[j] })
+	ev, _ := a.newEval(a.galoisKeys(c, gals, -1, a.maxLvlP))
+	var outs []*rlwe.Ciphertext
+	var err error
+	pe := recoverToErr(func() error {
+		if useNew {
+			outs, err = ev.EvaluateManyNew(ct, lts)
+		} else {
+			for range lts {
+				outs = append(outs, a.newCt(a.maxLevel))
+			}
+			err = ev.EvaluateMany(ct, lts, outs)
+		}
+		return nil
+	})
+	if pe != "" {
+		c.Fail(sig+"/panic", "%s: %s", desc, pe)
+		return
+	}
+	if err != nil {
+		c.Fail(sig+"/error", "%s: %v", desc, err)
+		return
+	}
+	scale := a.mulScale(a.fromScale(a.ctScale(false)), a.ltScale(false))
+	for m := range lts {
+		want := matvec(a.f, models[m], v, a.rows, a.n)
+		eps := 0.0
+		if a.ltErr != nil {
+			eps = a.ltErr(a.freshErr(a.ctScale(false)), maxAbs(a.f, v), dmaxOf(a, models[m]), a.fromScale(a.ctScale(false)), a.ltScale(false), a.maxLevel, a.maxLvlP, giantSteps(seq[m].idx))
+		}
+		got := a.decode(outs[m], scale)
+		for j := range want {
+			if !a.equal(got[j], want[j], eps) {
+				c.Fail(sig+"/value", "%s: output %d (%s%v) differs from the transformation evaluated alone (slot %d)\n got  %s\n want %s", desc, m, seq[m].name, seq[m].idx, j, a.show(got), a.show(want))
+				break
+			}
+		}
+		c.Count(1)
+	}
+	c.Outcome("many-sequence", desc)
 }
